@@ -175,15 +175,16 @@ def run(shard, rec, tier, seed):
                 for m in ms:
                     check_swap(mon, rec, make_pattern(pat, m), m)
                 rec.case(("swap", pat), nontrivial=L >= 2)
-        for m in (-1, -3, -256):
-            try:
-                mon.call("swap_multiples", b"\x01\x02\x03", m)
-                rec.violation("swap-negative", "swap_multiples accepted multiple %d" % m, {"m": m})
-            except ValueError:
-                pass
-            except Exception as ex:
-                rec.violation("swap-negative", "swap_multiples(%d) raised %r, not ValueError" % (m, ex), {"m": m})
-            rec.count("swap-negative")
+        for m in (-1, -2, -3, -255, -256, -10 ** 9):
+            for dat in (b"", b"\x00", b"\x07", b"\x01\x02", b"\x01\x02\x03", b"\x03\x06\x09\x0c", bytes(40)):
+                try:
+                    mon.call("swap_multiples", dat, m)
+                    rec.violation("swap-negative", "swap_multiples accepted multiple %d on %d byte(s) of data" % (m, len(dat)), {"m": m, "data": dat})
+                except ValueError:
+                    pass
+                except Exception as ex:
+                    rec.violation("swap-negative", "swap_multiples(%d) raised %r, not ValueError" % (m, ex), {"m": m, "data": dat})
+                rec.count("swap-negative")
         rec.seen("patterns_exhaustive", "all multiple/non-multiple layouts of length <= %d (part %d/%d)" % (shard["maxlen"], shard["part"], shard["parts"]))
     elif kind == "swap_random":
         rng = random.Random("C10-swap-%d-%d" % (seed, shard["part"]))
